@@ -1,6 +1,7 @@
 #!/bin/sh
 # tools/matrix.sh [patch files...]  -- run the quick checks related to the files a patch touches
 # (plus the seed's own property) against a scratch copy with the patch applied.
+# env: ALL=1 every check; OWN_ONLY=1 only the seed's own check; ONLY_IDS="C05 C08" exactly these.
 # Output lines:  <patch> : detected-by C01 C04 ... | harness-error ... | silent ...
 cd "$(dirname "$0")/.."
 [ $# -gt 0 ] || set -- mutants/*.diff seeded/*/patch.diff seeded/*/patch.rebased.diff
@@ -17,6 +18,7 @@ for P in "$@"; do
   [ -n "$ALL" ] && IDS="C01 C02 C03 C04 C05 C06 C07 C08 C09 C10 C11 C12 C13 C14 C15 C16 C17 C18 C19 C20"
   own="$(echo "$P" | sed -n 's#.*seeded/\(C[0-9]*\)-.*#\1#p')"
   [ -n "$OWN_ONLY" ] && [ -n "$own" ] && IDS=""
+  [ -n "$ONLY_IDS" ] && { IDS="$ONLY_IDS"; own=""; }
   IDS="$(echo $IDS $own | tr ' ' '\n' | sort -u | tr '\n' ' ')"
   D="$(mktemp -d /tmp/mx-XXXXXX)"
   cp -r /repo/python /repo/docs "$D"/
